@@ -112,20 +112,26 @@ def neglected_matrix(pva):
     return N
 
 
-T23 = None
+NAMES9 = ['DR1', 'DR2', 'DR3', 'DV1', 'DV2', 'DV3', 'PHI1', 'PHI2', 'PHI3']
 
 
 def _t23():
-    global T23
-    if T23 is None:
-        from pyins.error_model import InsErrorModel
-        T23 = np.array(InsErrorModel.TRANSFORM_2D_3D, dtype=float)
-    return T23
+    """selection of the 7 states by their NAMES (InsErrorModel(False).states), not by the library's matrix"""
+    from pyins.error_model import InsErrorModel
+    names = InsErrorModel(False).states
+    m = np.zeros((len(names), 9))
+    for i, nm in enumerate(names):
+        m[i, NAMES9.index(nm)] = 1.0
+    return m
 
 
 def _t32(pva):
-    from pyins.error_model import InsErrorModel
-    return InsErrorModel(False)._transform_3d_2d(pva.VN, pva.VE)
+    """lift of a 7-state error onto the documented constraint surface dr3 = 0, dv3 = VE phi1 - VN phi2
+    (so that the perturbed INS state keeps zero vertical velocity to first order)"""
+    m = _t23().T.copy()
+    m[5, 4] = float(pva.VE)
+    m[5, 5] = -float(pva.VN)
+    return m
 
 
 # ---------------------------------------------------------------------------------------------
@@ -325,6 +331,11 @@ def check_filter_step(pva, w_rel, acc_n, with_altitude, T, dt_imu=0.02):
         SM[:, j] = merr.values[-1]
     F0, Bg0, Ba0 = em.system_matrices(traj.iloc[0])
     F1, Bg1, Ba1 = em.system_matrices(traj.iloc[-1])
+    # quadrature error of the trapezoid over [0, T] when F, B are curved in time: second difference with the
+    # mid-point sample of the true trajectory (Simpson - trapezoid = T (F0 - 2 Fm + F1) / 3)
+    Fm, Bgm, Bam = em.system_matrices(true.iloc[len(true) // 2])
+    curvF = np.abs(F0 - 2 * Fm + F1) * T / 3
+    curvB = np.abs(np.hstack([Bg0, Ba0]) - 2 * np.hstack([Bgm, Bam]) + np.hstack([Bg1, Ba1])) * T / 3
     N0 = neglected_matrix(traj.iloc[0])
     N1 = neglected_matrix(traj.iloc[-1])
     if not with_altitude:
@@ -339,7 +350,8 @@ def check_filter_step(pva, w_rel, acc_n, with_altitude, T, dt_imu=0.02):
     M = A + Nb
     E2 = expm(M * T) - np.eye(ns) - M * T
     floor = 100 * (n + 1) * eps[:, None] / hs[None, :]
-    tol = 3 * (E2 + Nb * T + np.abs(F1 - F0) * T / 2 + (np.abs(F1 - F0) @ M + M @ np.abs(F1 - F0)) * T * T) \
+    tol = 3 * (E2 + Nb * T + 2 * curvF + np.abs(F1 - F0) * T / 2 +
+               (np.abs(F1 - F0) @ M + M @ np.abs(F1 - F0)) * T * T) \
         + floor + 1e-6 * np.abs(PhiM)
     if not with_altitude:
         # the harness feeds constant body-frame readings; over T the vertical specific force then departs from the
@@ -365,7 +377,7 @@ def check_filter_step(pva, w_rel, acc_n, with_altitude, T, dt_imu=0.02):
     E1 = expm(M * T) - np.eye(ns)
     wn = float(np.linalg.norm(w)) + 1e-3
     an = float(np.linalg.norm(acc_n)) + 1.0
-    tolS = 3 * (E1 @ Bm * T / 2 + Nb @ Bm * T * T + dBm * T / 2 + M @ dBm * T * T +
+    tolS = 3 * (E1 @ Bm * T / 2 + Nb @ Bm * T * T + 2 * curvB + dBm * T / 2 + M @ dBm * T * T +
                 T * (wn * T) ** 2 * (Bm @ MIX) / 8 + T * (wn * T) * (an * T) * (DVG if with_altitude else _t23() @ DVG) / 4) + \
         100 * (n + 1) * eps[:, None] / H_SENS[None, :] + 1e-6 * np.abs(SM)
     dS = np.abs(S - SM)
